@@ -687,6 +687,10 @@ def parse_vc(path):
                     if not m2:
                         raise ExtractError(f'{path}: bad #abstract-stmt (need `sha=<hash> /regex/ = stmt`): {s2}')
                     fn.setdefault('abstract_stmts', []).append((m2.group(2), m2.group(3).strip(), m2.group(1)))
+                elif s2 == '#name-bytes':
+                    # R8: byte-string literals of the body get a name (generated accessor with their content
+                    # as postcondition), because the verifier knows nothing about a literal's bytes
+                    fn['name_bytes'] = True
                 elif s2.startswith('#enumerate-loop '):
                     # R2: `for (I, X) in E.iter().enumerate() { B }`  ->  index loop (n-th loop of the body)
                     fn.setdefault('enum_loops', []).append(int(s2.split()[1]))
@@ -840,6 +844,21 @@ def extract_fn(repo, spec, features):
         log.append({'step': 'R7', 'line': sf.line_of(T[a].start), 'abstracted_unverified': txt.replace(' ', '')[:400], 'replaced_by': repl})
         dropped.append((T[a].start, T[e].start))
 
+    # ---- R8: byte-string literal naming.  `b"left"` -> `verif_bytes_6c656674()`, a generated accessor
+    # `fn verif_bytes_6c656674() -> (r: &'static [u8]) ensures r@ =~= seq![108u8, ..] { b"left" }` whose body
+    # IS the literal (external_body only because Verus has no model of literal bytes).  Printable ASCII
+    # literals without escapes only; anything else is left alone.
+    byte_lits = {}
+    if spec.get('name_bytes'):
+        for j in range(bo + 1, bc):
+            t = T[j]
+            if t.kind == 'str' and alive(t) and re.fullmatch(r'b"[\x20-\x21\x23-\x5b\x5d-\x7e]*"', t.text):
+                content = t.text[2:-1]
+                nm = 'verif_bytes_' + (content.encode().hex() or 'empty')
+                byte_lits[nm] = content
+                edits.add(t.start, t.end, nm + '()', 'rewrite', 'R8 bytes')
+                log.append({'step': 'R8', 'line': sf.line_of(t.start), 'before': t.text, 'after': nm + '()'})
+
     # ---- R5: type ascription on a `let` binding (`let mut v = Vec::new()` -> `let mut v: T = ..`).
     # Semantically neutral: rustc rejects the unit if T is not the inferred type.
     for (var, ty) in spec.get('ascribe', []):
@@ -910,8 +929,32 @@ def extract_fn(repo, spec, features):
         mA = re.fullmatch(r'for \( (\w+) , (\w+) \) in ' + PATH + r' \. iter \( \) \. enumerate \( \)(?: \. skip \( (\w+) \))?', txt)
         mB = re.fullmatch(r'for \( (\w+) , \( (\w+) , (\w+) \) \) in ' + PATH + r' \. iter \( \) \. zip \( ' + PATH
                           + r' \) \. enumerate \( \)(?: \. skip \( (\w+) \))?', txt)
-        if not (mA or mB):
+        #   C: for X in <EXPR> . into_iter ( ) . rev ( )      (by-value reverse iteration over a Vec)
+        #      -> let verif_rev_N = <EXPR>; let mut verif_k_N = verif_rev_N.len();
+        #         while verif_k_N > 0 { verif_k_N -= 1; let X = &verif_rev_N[verif_k_N]; B }
+        #      X becomes a REFERENCE to the element: rustc rejects the unit if B moves out of X, so the
+        #      rewrite is only accepted for bodies that use X by reference / copy its fields
+        mC = re.fullmatch(r'for (\w+) in (.+) \. into_iter \( \) \. rev \( \)', txt)
+        if not (mA or mB or mC):
             raise ExtractError(f'R2 does not apply to loop {n_} of {spec["name"]}: {txt}')
+        if mC and not (mA or mB):
+            xvar = mC.group(1)
+            k_in = li + 1
+            while not is_id(T[k_in], 'in'):
+                k_in += 1
+            # expression text: tokens after `in` up to the `. into_iter ( ) . rev ( )` suffix (8 tokens)
+            expr_src = sf.text[T[k_in + 1].start:T[b - 8].start].strip()
+            ivar = f'verif_k_{n_}'
+            vvar = f'verif_rev_{n_}'
+            head = f'let {vvar} = {expr_src}; let mut {ivar} = {vvar}.len(); while {ivar} > 0 '
+            bind = f' {ivar} -= 1; let {xvar} = &{vvar}[{ivar}];'
+            if any(is_id(T[k], 'continue') or is_id(T[k], 'break') for k in range(b, be)):
+                raise ExtractError(f'R2(C) refused: loop {n_} of {spec["name"]} contains continue/break')
+            edits.add(T[li].start, T[b].start, head, 'rewrite', 'R2 header')
+            edits.add(T[b].end, T[b].end, bind, 'rewrite', 'R2 bind')
+            log.append({'step': 'R2', 'line': sf.line_of(T[li].start), 'before': txt.replace(' ', ''),
+                        'after': head + '{' + bind + ' .. }'})
+            continue
         if mA:
             ivar, xvar, expr = mA.group(1), mA.group(2), mA.group(3).replace(' ', '')
             head = f'let mut {ivar} = {mA.group(4) or "0"}; while {ivar} < {expr}.len() '
@@ -1040,7 +1083,7 @@ def extract_fn(repo, spec, features):
         'text': out, 'impl_header': header, 'log': log, 'sha256': exec_sha,
         'file': spec['file'], 'line': sf.line_of(T[fn_kw].start),
         'end_line': sf.line_of(T[bc].start), 'name': spec['name'],
-        'loops': len(lps), 'closures': len(cls),
+        'loops': len(lps), 'closures': len(cls), 'byte_lits': byte_lits,
     }
 
 
@@ -1175,6 +1218,7 @@ def build_unit(vc_path, repo):
     feats = vc['features'] or set(DEFAULT_FEATURES)
     res = UnitResult()
     parts = []
+    byte_lits = {}
     if vc['header']:
         parts.append(vc['header'])
     parts.append('use vstd::prelude::*;\nverus! {\n')
@@ -1188,6 +1232,7 @@ def build_unit(vc_path, repo):
             parts.append(f'// extracted: {t["file"]}:{t["line"]}\n' + t['text'] + '\n\n')
         elif sec['kind'] == 'fn':
             f = extract_fn(repo, sec, feats)
+            byte_lits.update(f.get('byte_lits', {}))
             wrap = sec['wrap'] if sec['wrap'] is not None else f['impl_header']
             body = f'// extracted: {f["file"]}:{f["line"]}-{f["end_line"]}\n' + sec['attrs'] + f['text'] + '\n'
             mode = sec.get('wrap_mode')
@@ -1209,6 +1254,10 @@ def build_unit(vc_path, repo):
                                   'loops': f['loops'], 'closures': f['closures'],
                                   'log': f['log']})
             parts.append(body + '\n')
+    for nm, content in sorted(byte_lits.items()):
+        seq = ', '.join(f'{b}u8' for b in content.encode())
+        parts.append(f'// R8: generated accessor for the literal b"{content}" (its body IS the literal)\n'
+                     f'#[verifier::external_body]\npub fn {nm}() -> (r: &\'static [u8]) ensures r@ =~= seq![{seq}] {{ b"{content}" }}\n')
     parts.append('\n} // verus!\nfn main() {}\n')
     res.text = ''.join(parts)
     return res
